@@ -149,6 +149,11 @@ def _strategy(draw):
     if draw(st.integers(0, 3)) == 0:
         spec["coords"] = draw(c03.supplied_coords(spec, opts["box"], mode="mc",
                                                   nres=None if draw(st.booleans()) else 1))
+        if spec["coords"] and draw(st.booleans()):
+            # the same residues also come with atom positions (-c next to -mc): they are backmapped around the
+            # given centres all the same
+            atoms = draw(c03.supplied_coords(spec, opts["box"], mode="c", nres=spec["coords"]["nres"]))
+            spec["coords"]["also_atoms"] = atoms["atoms"]
     spec["kind"] = "system"
     return spec
 
@@ -256,6 +261,8 @@ def check(spec, ctx):
         ctx.label("user_template")
     if spec.get("coords"):
         ctx.label("backmap_only_residues")
+        if spec["coords"].get("also_atoms"):
+            ctx.label("centres_and_atom_positions_supplied")
     if n_chiral:
         ctx.label("chiral_residue")
     if spec.get("shared_resids") and any(len(set(mt.get("resids", []))) < len(mt.get("resids", [])) for mt in spec["moltypes"]):
